@@ -561,7 +561,15 @@ def compare(case, ir, mr):
     if 'error' in mr:
         return ['chp: model rejects (%s) what the implementation builds' % mr['error']]
     tol = 0 if case.get('exact') else 1e-9
-    out = cmp_problem('chp', mr['problem'], ir['problem'], tol, aspects=('c', 'l', 'u', 'rows', 'mapping'))
+    mp, ip = mr['problem'], ir['problem']
+    if tol:
+        # floating point cancellation (e.g. min_cap - profile bound = 0.0) leaves a coefficient of 1e-17 in exact
+        # arithmetic on the same inputs: drop coefficients below 1e-12 on both sides before comparing structures
+        def clean(rows):
+            return [dict(r, coeffs=[[j, v] for j, v in r['coeffs'] if abs(Fraction(v)) > Fraction(1, 10 ** 12)]) for r in rows]
+        mp = dict(mp, rows=clean(mp['rows']))
+        ip = dict(ip, rows=clean(ip['rows']))
+    out = cmp_problem('chp', mp, ip, tol, aspects=('c', 'l', 'u', 'rows', 'mapping'))
     info = mr.get('info')
     if info:
         if not info.get('commit_ok', True):
@@ -914,6 +922,10 @@ def oracle_portfolio(case, info=None):
             for i in range(min(S - tar, T)):
                 sphase[i] = tar + i
         phase = (sphase >= 0) | (qphase >= 0)
+        if Q > 0 and shut_r[0] == 1:
+            # a stop at step 0: the steps before the horizon were the shutdown ramp; the code relaxes the first-step
+            # ramp row by every shutdown flag among the first Q steps (last_dispatch is not checked against the profile)
+            phase[0] = True
         nprof = 0
         for t in range(T):
             if sphase[t] >= 0 and qphase[t] >= 0:
